@@ -28,8 +28,12 @@ class UFunc:
 
     def __call__(self, *args, **kw):
         from symx import core
-        # keyword arguments follow the positional ones in name order: f(p, q=x) is f(p, x)
-        args = list(args) + [kw[k] for k in sorted(kw)]
+        # keyword arguments follow the positional ones in the order received (PEP 468): f(p, q=x) is f(p, x);
+        # with several keywords each order of names is a function of its own
+        names = list(kw)
+        args = list(args) + [kw[k] for k in names]
+        if len(names) > 1:
+            return core.cur().func(self.name + "_kw_" + "_".join(names), len(args))(*args)
         return core.cur().func(self.name, self.nargs)(*args)
 
     def __reduce__(self):
